@@ -91,7 +91,10 @@ def triangulate_dataset(
     .. _holoviews: https://holoviews.org/reference/elements/bokeh/TriMesh.html
     .. _trimesh: https://trimsh.org
     """
-    polygons = dataset.ems.polygons
+    # A cell can repeat a vertex, for example where cell bounds are derived
+    # from cell centres next to a missing cell. Such a cell has fewer sides
+    # than coordinates, and the repeated vertex would never make a valid ear.
+    polygons = shapely.remove_repeated_points(dataset.ems.polygons)
 
     # Find all the unique coordinates and assign them each a unique index
     all_coords = shapely.get_coordinates(polygons)
